@@ -51,6 +51,15 @@ func c07Scenarios(thorough bool) []ConcScenario {
 		big.Plans[i].Script = []string{"bigdata:[" + id + "-client-big]", "data:[" + id + "-client-2]", "recvbytes:34", "drop"}
 	}
 	out = append(out, big)
+	// connection identifiers that are distinct but look alike (letter case, blanks, non-ASCII characters, a tab):
+	// distinct identifiers are distinct tunnels
+	for k, pair := range [][2]string{{"Branch-Office-K7", "branch-office-k7"}, {"front desk 12", "frontdesk12"}, {"kiosk-\u21167", "kiosk-7"}, {"loadingbay\t-east", "loadingbay-east"}, {"{1F2E3D4C-AAAA-BBBB-CCCC-000000000001}", "{1f2e3d4c-aaaa-bbbb-cccc-000000000001}"}} {
+		for _, kinds := range [][2]string{{"legacy", "legacy"}, {"ws", "legacy"}} {
+			pa, pb := c07Plan(kinds[0], "A", 1, "close"), c07Plan(kinds[1], "B", 2, "drop")
+			pa.ConnID, pb.ConnID = pair[0], pair[1]
+			out = append(out, ConcScenario{Name: fmt.Sprintf("two-%s+%s-similar-ids-%d", kinds[0], kinds[1], k), Deviation: true, Plans: []TunnelPlan{pa, pb}})
+		}
+	}
 	// real tokens checked by the real security callbacks, the identity provider round trip being a scheduling point
 	out = append(out, ConcScenario{Name: "two-ws+ws-real-tokens", Deviation: true, RoundRobin: true, RealCookie: true, Plans: []TunnelPlan{c07Plan("ws", "A", 1, "drop"), c07Plan("ws", "B", 2, "drop")}})
 	// ... and with a host list that depends on the tunnel's user: the user one tunnel is given must be its own
@@ -207,6 +216,9 @@ func c07(env *Env, rep *Report) {
 		b := bound
 		if len(sc.Plans) > 2 {
 			b = 2
+		}
+		if strings.Contains(sc.Name, "similar-ids") {
+			b-- // what they look for (two identifiers taken for one) shows without an unusual schedule
 		}
 		exploreConc(env, rep, sc, b, nil, c07Check(sc, alone))
 	}
